@@ -30,6 +30,7 @@ TARGETS = [
     ('char_error', '_ST_PRIVATE::conversion_error_t (char32_t)'),
     ('b64_encode_size', 'size_t (size_t)'),
     ('b64_decode_size', 'ST_ssize_t (size_t, const char *)'),
+    ('pad_size', 'size_t (const ST::format_spec &, size_t, _ST_PRIVATE::numeric_type)'),
 ]
 
 INT_TYPES = {
@@ -42,6 +43,9 @@ INT_TYPES = {
 
 class Unsupported(Exception):
     pass
+
+
+RECORD_PARAMS = ('ST::format_spec',)
 
 
 def strip_quals(t):
@@ -61,6 +65,8 @@ class Translator:
         self.enum_types = {}   # enum type name -> (signed, bits)
         self.funcs = {}        # (name, qualType) -> node
         self.ext_consts = {}   # qualified name -> None (to be evaluated)
+        self.named_consts = {} # name -> value (enumerators, named integral constants of case labels)
+        self.fields, self.field_order = {}, []
         self.index(root, [])
 
     def index(self, n, ns):
@@ -115,8 +121,32 @@ class Translator:
     def expr(self, n, env):
         k = n.get('kind')
         inner = [c for c in (n.get('inner') or []) if isinstance(c, dict)]
+        if k == 'ConstantExpr' and 'value' in n:
+            # an integral constant expression evaluated by clang; keep the constant's name when it has one
+            ref = inner[0] if inner else {}
+            while ref.get('kind') in ('ImplicitCastExpr', 'ParenExpr') and ref.get('inner'):
+                ref = ref['inner'][0]
+            name = (ref.get('referencedDecl') or {}).get('name') if ref.get('kind') == 'DeclRefExpr' else None
+            if name:
+                self.named_consts[name] = int(n['value'])
+                return 'ext_' + name
+            return '(%d)' % int(n['value'])
         if k in ('ParenExpr', 'ConstantExpr', 'ExprWithCleanups', 'MaterializeTemporaryExpr'):
             return self.expr(inner[0], env)
+        if k == 'MemberExpr':
+            base = inner[0]
+            while base.get('kind') in ('ImplicitCastExpr', 'ParenExpr'):
+                base = base['inner'][0]
+            rd = base.get('referencedDecl') or {}
+            if base.get('kind') != 'DeclRefExpr' or ('rec', rd.get('id')) not in env:
+                raise Unsupported('member access on something that is not a record parameter')
+            fname = n.get('name', '').lstrip('.')
+            key = (rd['id'], fname)
+            if key not in self.fields:
+                self.int_type(n.get('type'))
+                self.fields[key] = 'f_' + fname
+                self.field_order.append('f_' + fname)
+            return self.fields[key]
         if k == 'IntegerLiteral':
             return '(%d)' % int(n['value'])
         if k == 'CharacterLiteral':
@@ -128,7 +158,8 @@ class Translator:
             if rd.get('kind') == 'EnumConstantDecl':
                 if rd['id'] not in self.enums:
                     raise Unsupported('enumerator %s' % rd.get('name'))
-                return '(%d)' % self.enums[rd['id']]
+                self.named_consts[rd.get('name')] = self.enums[rd['id']]
+                return 'ext_' + rd.get('name')
             if rd.get('kind') in ('ParmVarDecl', 'VarDecl'):
                 if rd['id'] in env:
                     return env[rd['id']]
@@ -212,8 +243,48 @@ class Translator:
             return len(inner) >= 3 and self.always_returns(inner[1]) and self.always_returns(inner[2])
         return False
 
+    # ---- statements without `return` that update local variables: if / switch / assignment / ++ / --
+    def switch_groups(self, s):
+        """[(labels or None for default, [statements])] of a switch whose groups all end in break"""
+        inner = [c for c in (s.get('inner') or []) if isinstance(c, dict)]
+        body = inner[-1]
+        groups, cur = [], None
+        for c in [x for x in (body.get('inner') or []) if isinstance(x, dict)]:
+            k = c.get('kind')
+            if k in ('CaseStmt', 'DefaultStmt'):
+                if cur is not None and cur[1]:
+                    raise Unsupported('switch group that falls through')
+                labels = cur[0] if cur is not None else []
+                node = c
+                while node.get('kind') in ('CaseStmt', 'DefaultStmt'):
+                    sub = [x for x in (node.get('inner') or []) if isinstance(x, dict)]
+                    if node['kind'] == 'CaseStmt':
+                        labels = labels + [self.expr(sub[0], {})]
+                        node = sub[-1]
+                    else:
+                        labels = labels + [None]
+                        node = sub[-1]
+                cur = (labels, [] if node.get('kind') == 'BreakStmt' else [node])
+                if node.get('kind') == 'BreakStmt':
+                    groups.append(cur)
+                    cur = None
+            elif k == 'BreakStmt':
+                if cur is None:
+                    raise Unsupported('break outside a switch group')
+                groups.append(cur)
+                cur = None
+            else:
+                if cur is None:
+                    raise Unsupported('statement before the first case label')
+                cur[1].append(c)
+        if cur is not None:
+            groups.append(cur)
+        return inner[0], groups
+
     def assigned(self, s):
-        """the local variable a statement without returns assigns (exactly one supported)"""
+        """ids of the local variables a statement without returns assigns"""
+        if s is None:
+            return []
         k = s.get('kind')
         inner = [c for c in (s.get('inner') or []) if isinstance(c, dict)]
         if k == 'CompoundStmt':
@@ -221,16 +292,63 @@ class Translator:
             for c in inner:
                 out += self.assigned(c)
             return out
-        if k in ('BinaryOperator', 'CompoundAssignOperator') and n_is_assign(s):
+        if (k in ('BinaryOperator', 'CompoundAssignOperator') and n_is_assign(s)) or n_is_incdec(s):
             lhs = inner[0]
             while lhs.get('kind') == 'ParenExpr':
                 lhs = lhs['inner'][0]
             if lhs.get('kind') != 'DeclRefExpr':
                 raise Unsupported('assignment to something that is not a local variable')
             return [lhs['referencedDecl']['id']]
+        if k == 'IfStmt':
+            return self.assigned(inner[1]) + (self.assigned(inner[2]) if len(inner) > 2 else [])
+        if k == 'SwitchStmt':
+            out = []
+            for _, stmts in self.switch_groups(s)[1]:
+                for c in stmts:
+                    out += self.assigned(c)
+            return out
         if k == 'NullStmt':
             return []
         raise Unsupported('statement %s inside a conditional update' % k)
+
+    def update_value(self, s, vid, env):
+        """value of local vid after the return-free statement s (env maps vid to its current value)"""
+        if s is None:
+            return env[vid]
+        k = s.get('kind')
+        inner = [c for c in (s.get('inner') or []) if isinstance(c, dict)]
+        if k == 'CompoundStmt':
+            env = dict(env)
+            for c in inner:
+                env[vid] = self.update_value(c, vid, env)
+            return env[vid]
+        if k == 'NullStmt':
+            return env[vid]
+        if k == 'IfStmt':
+            cond = self.expr(inner[0], env)
+            tv = self.update_value(inner[1], vid, env)
+            ev = self.update_value(inner[2], vid, env) if len(inner) > 2 else env[vid]
+            return '(if z2b %s then %s else %s)' % (cond, tv, ev)
+        if k == 'SwitchStmt':
+            cond_node, groups = self.switch_groups(s)
+            cond = self.expr(cond_node, env)
+            default = env[vid]
+            arms = []
+            for labels, stmts in groups:
+                e2 = dict(env)
+                for c in stmts:
+                    e2[vid] = self.update_value(c, vid, e2)
+                if None in labels:
+                    default = e2[vid]
+                real = [l for l in labels if l is not None]
+                if real:
+                    arms.append((real, e2[vid]))
+            out = default
+            for real, val in reversed(arms):
+                test = ' || '.join('Z.eqb (%s) %s' % (cond, l) for l in real)
+                out = '(if %s then %s else %s)' % (test, val, out)
+            return out
+        return self.assign_value(s, env)
 
     def stmts(self, lst, env):
         if not lst:
@@ -258,54 +376,34 @@ class Translator:
                 out.append('let %s := %s in' % (name, v))
                 env[d['id']] = name
             return '\n  '.join(out) + '\n  ' + self.stmts(rest, env)
-        if k in ('BinaryOperator', 'CompoundAssignOperator') and n_is_assign(s):
-            vid = self.assigned(s)[0]
-            if vid not in env:
-                raise Unsupported('assignment to a non-local')
-            val = self.assign_value(s, env)
-            env = dict(env)
-            name = self.fresh(env[vid].rstrip("'0123456789_"))
-            env[vid] = name
-            return 'let %s := %s in\n  %s' % (name, val, self.stmts(rest, env))
         if k == 'IfStmt':
-            cond = self.expr(inner[0], env)
             then = inner[1]
             els = inner[2] if len(inner) > 2 else None
             if self.always_returns(then) and (els is None or self.always_returns(els)):
+                cond = self.expr(inner[0], env)
                 t = self.stmts([then], env)
                 e = self.stmts([els] if els is not None else rest, env)
                 return '(if z2b %s then %s else %s)' % (cond, t, e)
-            # a conditional update of ONE local variable
-            vs = set(self.assigned(then) + (self.assigned(els) if els is not None else []))
+        if k in ('IfStmt', 'SwitchStmt') or (k in ('BinaryOperator', 'CompoundAssignOperator') and n_is_assign(s)) or n_is_incdec(s):
+            vs = set(self.assigned(s))
             if len(vs) != 1:
-                raise Unsupported('conditional update of %d variables' % len(vs))
+                raise Unsupported('update of %d variables in one statement' % len(vs))
             vid = vs.pop()
             if vid not in env:
-                raise Unsupported('conditional update of a non-local')
-            old = env[vid]
-            tv = self.update_value(then, vid, env)
-            ev = self.update_value(els, vid, env) if els is not None else old
+                raise Unsupported('update of a non-local')
+            val = self.update_value(s, vid, env)
             env = dict(env)
-            name = self.fresh(old.rstrip("'0123456789_"))
+            name = self.fresh(env[vid].rstrip("0123456789").rstrip('_'))
             env[vid] = name
-            return 'let %s := (if z2b %s then %s else %s) in\n  %s' % (name, cond, tv, ev, self.stmts(rest, env))
+            return 'let %s := %s in\n  %s' % (name, val, self.stmts(rest, env))
         raise Unsupported('statement %s' % k)
-
-    def update_value(self, s, vid, env):
-        """value of local vid after the assignment-only statement s"""
-        k = s.get('kind')
-        inner = [c for c in (s.get('inner') or []) if isinstance(c, dict)]
-        if k == 'CompoundStmt':
-            env = dict(env)
-            for c in inner:
-                env[vid] = self.update_value(c, vid, env)
-            return env[vid]
-        if k == 'NullStmt':
-            return env[vid]
-        return self.assign_value(s, env)
 
     def assign_value(self, s, env):
         inner = [c for c in (s.get('inner') or []) if isinstance(c, dict)]
+        if n_is_incdec(s):
+            ty = self.int_type(inner[0].get('type'))
+            x = self.expr(inner[0], env)
+            return self.wrap(ty, '(%s %s 1)' % (x, '+' if s.get('opcode') == '++' else '-'))
         lhs_ty = self.int_type(inner[0].get('type'))
         rhs = self.expr(inner[1], env)
         op = s.get('opcode')
@@ -321,9 +419,10 @@ class Translator:
         return self.wrap(lhs_ty, self.wrap(comp, table[op] % (lhs_c, rhs)))
 
     def fresh(self, base):
-        base = 'v_' + base.replace('v_', '', 1) if not base.startswith('v_') else base
+        if not base.startswith('v_'):
+            base = 'v_' + base
         self.counter = getattr(self, 'counter', 0) + 1
-        return '%s%d' % (base + '_', self.counter)
+        return '%s_%d' % (base, self.counter)
 
     # ---------------------------------------------------------------- functions
     def function(self, name, qt):
@@ -333,9 +432,15 @@ class Translator:
         n, ns = self.funcs[(name, qt)]
         env, params = {}, []
         body = None
+        self.fields, self.field_order = {}, []
         for c in n.get('inner', []) or []:
             if c.get('kind') == 'ParmVarDecl':
                 q = strip_quals((c.get('type') or {}).get('qualType', ''))
+                if q.rstrip('& ').strip() in RECORD_PARAMS:
+                    # a record passed by reference: each field read becomes a parameter (in order of first use)
+                    env[('rec', c['id'])] = True
+                    params.append(('rec', c['id']))
+                    continue
                 if q.endswith('*'):
                     pname = 'p_' + c.get('name', 'arg%d' % len(params))
                     params.append('(%s : Z -> Z)' % pname)
@@ -350,11 +455,21 @@ class Translator:
         self.int_type({'qualType': ret, 'desugaredQualType': {'size_t': 'unsigned long', 'ST_ssize_t': 'long'}.get(ret, ret)})
         self.counter = 0
         text = self.stmts([body], env)
-        return 'Definition src_%s %s : Z :=\n  %s.' % (name, ' '.join(params), text)
+        plist = []
+        for pp in params:
+            if isinstance(pp, tuple):
+                plist += ['(%s : Z)' % f for f in self.field_order]
+            else:
+                plist.append(pp)
+        return 'Definition src_%s %s : Z :=\n  %s.' % (name, ' '.join(plist), text)
 
 
 def n_is_assign(s):
     return s.get('kind') == 'CompoundAssignOperator' or (s.get('kind') == 'BinaryOperator' and s.get('opcode') == '=')
+
+
+def n_is_incdec(s):
+    return s.get('kind') == 'UnaryOperator' and s.get('opcode') in ('++', '--')
 
 
 PRELUDE = '''(* GENERATED by tools/leaf_translate.py from the clang AST of the current headers — do not edit.
@@ -369,6 +484,13 @@ Definition z2b (x : Z) : bool := negb (x =? 0).
 '''
 
 
+# constants the bridge theorems refer to by name even when the translated bodies do not mention them
+EXTRA_CONSTS = {'digit_default': 'ST::digit_default', 'digit_dec': 'ST::digit_dec', 'digit_hex': 'ST::digit_hex',
+                'digit_hex_upper': 'ST::digit_hex_upper', 'digit_oct': 'ST::digit_oct', 'digit_bin': 'ST::digit_bin',
+                'digit_char': 'ST::digit_char', 'numeric_positive': '_ST_PRIVATE::numeric_positive',
+                'numeric_negative': '_ST_PRIVATE::numeric_negative', 'numeric_zero': '_ST_PRIVATE::numeric_zero'}
+
+
 def eval_constants(names, inc, cfg, namespaces=('_ST_PRIVATE', 'ST')):
     """namespace-scope constexpr integers, evaluated by the compiler"""
     out = {}
@@ -381,7 +503,7 @@ def eval_constants(names, inc, cfg, namespaces=('_ST_PRIVATE', 'ST')):
             f.write('template <class T> static void show(const char *n, T v) { std::printf("%s %lld\\n", n, (long long)v); }\n')
             f.write('int main() {\n')
             for n in sorted(names):
-                f.write('  show("%s", _ST_PRIVATE::%s);\n' % (n, n))
+                f.write('  show("%s", %s);\n' % (n, names[n] or ('_ST_PRIVATE::' + n)))
             f.write('}\n')
         exe = os.path.join(d, 'c')
         p = subprocess.run(['g++', '-std=c++20', '-I' + inc, '-I' + cfg, src, '-o', exe], stdout=subprocess.PIPE, stderr=subprocess.STDOUT)
@@ -406,12 +528,21 @@ def generate(root, inc, cfg):
             errors.append((name, 'unexpected AST shape: %r' % (e,)))
     consts = {}
     try:
-        consts = eval_constants(tr.ext_consts, inc, cfg)
+        want = dict(tr.ext_consts)
+        want.update(EXTRA_CONSTS)
+        consts = eval_constants(want, inc, cfg)
+        # a named constant seen in the AST must have the value the compiler gives it
+        for k, v in tr.named_consts.items():
+            if k in consts and consts[k] != v:
+                errors.append(('<constants>', 'constant %s: AST says %d, compiler says %d' % (k, v, consts[k])))
     except Unsupported as e:
         errors.append(('<constants>', str(e)))
     lines = [PRELUDE]
     for k in sorted(consts):
         lines.append('Definition ext_%s : Z := (%d).' % (k, consts[k]))
+    for k in sorted(tr.named_consts):
+        if k not in consts:
+            lines.append('Definition ext_%s : Z := (%d).' % (k, tr.named_consts[k]))
     lines.append('')
     for name, d in defs:
         lines.append(d)
